@@ -350,3 +350,59 @@ def gen_finish_program(rng):
     L += ["  dg = (dg ^ (unsigned long long)after((long)dg & 0xffff)) * 1099511628211ULL;",
           "  snprintf(line, sizeof line, \"DIGEST main %016llx\\n\", dg);", "  report(line);", "  return (int)(dg % 100u);", "}"]
     return "\n".join(L) + "\n", {"nworkers": nworkers, "chain": chain, "tail": tail, "by_worker": by_worker}
+
+
+def gen_finish_lib_program(rng, modeflags, opt):
+    """Like gen_finish_program, but the parked function's return slot is shared by a PLT-hook entry and an mcount entry:
+    variant `lib`: the parked function lives in an instrumented shared library and is called through the PLT of the
+    executable (directly, or tail-called through the PLT by a chain of instrumented hops: kinds M..M,P,M on one slot);
+    variant `cb`: an uninstrumented library function tail-calls (jmp) an instrumented callback of the executable (P,M).
+    The other thread fires the `finish` trigger; the first hook the worker meets afterwards is the parked function's exit
+    hook, which must hand back the program's own return address whatever trampoline the entry saved.
+    -> (files, build commands, description)"""
+    variant = rng.choice(["lib", "lib", "cb"])
+    nworkers = rng.choice([1, 2, 3])
+    chain = rng.choice([0, 0, 1, 2])
+    tail = rng.random() < 0.7
+    by_worker = nworkers > 1 and rng.random() < 0.4
+    park = "long parkfn(long x) { atomic_fetch_add(&parked, 1); while (!atomic_load(&go)) sink++; return x * 7 + 3; }"
+    lib = ["#include <stdatomic.h>", "atomic_int parked; atomic_int go; volatile unsigned long sink;"]
+    main = ["#include <pthread.h>", "#include <stdatomic.h>", "#include <stdio.h>", "#include <stdlib.h>", "#include <stdint.h>",
+            "#define NOINL __attribute__((noinline))", FIN_REPORT,
+            "extern atomic_int parked; extern atomic_int go; extern volatile unsigned long sink;"]
+    if variant == "lib":
+        lib.append("__attribute__((noinline)) " + park)
+        main.append("extern long parkfn(long x);")
+        prev = "parkfn"
+    else:
+        lib.append("long apply(long (*cb)(long), long x) { sink += 1; return cb(x + 2); }")       # -O2: jmp *%rdi
+        main += ["extern long apply(long (*cb)(long), long x);", "NOINL " + park,
+                 "NOINL long viaapply(long x) { %s }" % ("return apply(parkfn, x);" if tail else "long r = apply(parkfn, x); sink += r; return r ^ 9;")]
+        prev = "viaapply"
+    for i in range(chain):
+        name = "hop%d" % i
+        if tail:
+            main.append("NOINL long %s(long x) { sink += x; return %s(x + %d); }" % (name, prev, i + 1))
+        else:
+            main.append("NOINL long %s(long x) { long r; sink += x; r = %s(x + %d); sink += r; return r ^ %d; }" % (name, prev, i + 1, i + 5))
+        prev = name
+    main += ["NOINL long after(long x) { return x ^ 0x5a5a; }",
+             "NOINL void finish_now(void) { sink++; }",
+             "static void *worker(void *arg) { long r = %s((long)(intptr_t)arg); r += after(r); return (void *)(intptr_t)r; }" % prev,
+             "static void *firer(void *arg) { while (atomic_load(&parked) < (int)(intptr_t)arg) sink++; finish_now(); atomic_store(&go, 1); return (void *)(intptr_t)after(99); }",
+             "int main(void)", "{", "  pthread_t th[4], ft; void *res; unsigned long long dg = 1469598103934665603ULL; char line[96]; int i;",
+             "  for (i = 0; i < %d; i++) if (pthread_create(&th[i], NULL, worker, (void *)(intptr_t)(41 + i)) != 0) return 2;" % nworkers]
+    if by_worker:
+        main.append("  if (pthread_create(&ft, NULL, firer, (void *)(intptr_t)%d) != 0) return 2;" % nworkers)
+    else:
+        main += ["  while (atomic_load(&parked) < %d) sink++;" % nworkers, "  finish_now();", "  atomic_store(&go, 1);"]
+    main += ["  for (i = 0; i < %d; i++) { pthread_join(th[i], &res); dg = (dg ^ (unsigned long long)(intptr_t)res) * 1099511628211ULL; }" % nworkers]
+    if by_worker:
+        main.append("  pthread_join(ft, &res); dg = (dg ^ (unsigned long long)(intptr_t)res) * 1099511628211ULL;")
+    main += ["  dg = (dg ^ (unsigned long long)after((long)dg & 0xffff)) * 1099511628211ULL;",
+             "  snprintf(line, sizeof line, \"DIGEST main %016llx\\n\", dg);", "  report(line);", "  return (int)(dg % 100u);", "}"]
+    flags = " ".join(modeflags)
+    build = ["gcc -O2 -w -fPIC -shared %s -o libwork.so libwork.c" % (flags if variant == "lib" else ""),
+             "gcc %s -g -w %s -o prog main.c -L. -lwork -Wl,-rpath,$PWD -pthread" % (opt, flags)]
+    return ({"libwork.c": "\n".join(lib) + "\n", "main.c": "\n".join(main) + "\n"}, build,
+            {"nworkers": nworkers, "chain": chain, "tail": tail, "by_worker": by_worker, "lib": variant})
